@@ -251,6 +251,35 @@ func opCmpDist1(raw json.RawMessage, o *Out) {
 			}
 		}
 	}
+	// Exactly proportional unit-length points that are not bitwise equal / bitwise negations: X an axis
+	// point, Y parallel to it, embedded as X and +-X*(1 - 2^-53) resp. +-X*(1 + 2^-52) (exact products).
+	// The distance between the directions is exactly 0 or 180 degrees, so every limit has a model
+	// answer, ties included, and the whole pipeline (triage stages included) must give it.
+	ax := 0
+	for _, v := range c.X {
+		if v != 0 {
+			ax++
+		}
+	}
+	cross0 := c.X[1]*c.Y[2]-c.X[2]*c.Y[1] == 0 && c.X[2]*c.Y[0]-c.X[0]*c.Y[2] == 0 && c.X[0]*c.Y[1]-c.X[1]*c.Y[0] == 0
+	if ax == 1 && c.X[0]*c.X[0]+c.X[1]*c.X[1]+c.X[2]*c.X[2] == 1 && cross0 && c.Dot != 0 {
+		x := emb.Dyadic(c.X, 0)
+		for _, scale := range []float64{1 - 0x1p-53, 1 + 0x1p-52} {
+			y := s2.Point{Vector: x.Mul(float64(c.Dot) * scale)}
+			for k := 0; k <= 32; k++ {
+				want := c.Want[fmt.Sprint(k)]
+				r := s1.ChordAngle(float64(k) / 8)
+				if g := s2.CompareDistance(x, y, r); g != want {
+					o.Fail("cmpdist1/CompareDistance/proportional", "CompareDistance(%v, %v*%v, r2=%d/8) = %d, model %d", c.X, c.Dot, scale, k, g, want)
+				}
+				if g := s2.CompareDistance(y, x, r); g != want {
+					o.Fail("cmpdist1/CompareDistance/proportional", "CompareDistance(%v*%v, %v, r2=%d/8) = %d, model %d", c.Dot, scale, c.X, k, g, want)
+				}
+			}
+		}
+		o.Count("proportional_axis_pairs")
+		o.nontrivial = true
+	}
 	if o.nontrivial {
 		o.sample = map[string]any{"op": "cmpdist1", "x": c.X, "y": c.Y, "model": c.Want}
 	}
